@@ -37,6 +37,9 @@ def run(tier):
     lk.validate(c, out, FLAGS, "stress-redis", chunks=1)
     out, _ = lk.drive(c, "rawstress", "rawstress", n=8 if c.quick() else 80)
     lk.validate(c, out, FLAGS, "rawstress", chunks=1)
+    # a record left behind by a lost Delete request, found again by the same Locker; a take-over write is held back
+    out, _ = lk.drive(c, "orphan", "orphan")
+    lk.validate(c, out, FLAGS, "orphan", chunks=1)
     # the recorded finding: a release that reaches the store after the lease ran out
     out, _ = lk.drive(c, "latedelete", "latedelete")
     lk.validate(c, out, FLAGS, "latedelete", chunks=1)
